@@ -12,6 +12,7 @@ import (
 	"crypto/sha256"
 	"crypto/sha512"
 	"fmt"
+	"go/types"
 	"hash"
 
 	"golang.org/x/crypto/ripemd160"
@@ -180,7 +181,7 @@ func init() {
 			// ideal AEAD: fresh bytes of length len(m)+16
 			box = make([]value, len(msg)+16)
 			for k := range box {
-				box[k] = i.nondet("box", 8)
+				box[k] = unliftV(i.nondet("box", 8), types.Typ[types.Uint8])
 			}
 		}
 		i.seals = append(i.seals, sealRec{box: box, nonce: append([]value{}, nonce...), key: append([]value{}, key...), msg: append([]value{}, msg...)})
@@ -258,7 +259,7 @@ func init() {
 		}
 		out := make([]value, keyLen)
 		for k := range out {
-			out[k] = i.nondet("kdf", 8)
+			out[k] = unliftV(i.nondet("kdf", 8), types.Typ[types.Uint8])
 		}
 		// collision-freeness: differs from every earlier output
 		for _, rec := range i.kdfs {
